@@ -148,7 +148,7 @@ TDoc == /\ IsEvent("Doc") /\ stage = "embed"
         /\ embed' = Embed(Traces[tid].texts, lines, 0) /\ stage' = "run"
         /\ UNCHANGED <<api, specs, focus, lines, segs, index, phase, req, seen>>
         /\ IF ~E.present THEN Note({"doc:snippet-missing"})
-           ELSE Note(If(TrimBlank(E.texts, 0) = embed', "doc:differs"))
+           ELSE Note(If(NonBlank(E.texts, 0) = embed', "doc:differs"))
 
 TRun == /\ IsEvent("Run") /\ RunSample /\ UNCHANGED dev
 
